@@ -15,6 +15,17 @@ CLAIMS = {
         "svds ascending order, default ddof=0.",
         "technique": "def-use provenance with operator paths (exponent/denominator classification, conjugation parity), slice-shape checks",
     },
+    "C02": {
+        "text": "The Preprocessor's stage table is the single source of order: fit applies the seven stages in table order, each fed by the previous one; "
+        "transform walks the table forward, every inverse map walks it reversed calling the stage's own inverse; serialize/deserialize walk it too. Per "
+        "stage the inverse reads what the forward wrote for the same role: Stacker stack/unstack and rename pairs on sample_name/feature_name with "
+        "dims_mapping, Dataset variable-level name, dispatch on the stored type name, dimension order restored on every unstack path; Concatenator "
+        "splits with the offsets it concatenated with and re-attaches the recorded coordinates; MultiIndexConverter records/restores exactly the "
+        "converted dimensions with the right reference per inverse; DimensionRenamer inverts its own mapping.",
+        "note": "Necessary structural clauses only. Not decided: value-at-label equality, xarray's stack/unstack behaviour for exotic indexes, sortedness "
+        "after unstack. Label paths for unseen data are decided under C05, NaN re-insertion under C06.",
+        "technique": "call-sequence extraction against a table literal, writer/reader agreement by provenance, match-dispatch comparison",
+    },
     "C03": {
         "text": "Scaler.transform and inverse_transform_data are reduced to their affine steps (operator, fitted factor, flag): every factor is undone "
         "by the inverted operator under the same flag, once, with the mean removed first and restored last; every def-use path of data through "
@@ -61,6 +72,15 @@ CLAIMS = {
         "note": "Decides the NAMES clauses only. Not decided: numerical invariance under permutations/partitions, sign "
         "determinism as values. Trusted: ast, the class/constructor-flow resolver, the one table exemption (Scaler.dims keys).",
         "technique": "AST lint over resolved program (literal dimension designators, call-site default binding, constructor-parameter flow)",
+    },
+    "C08": {
+        "text": "Constructor-parameter flow of every concrete model: center/standardize/use_coslat/check_nans/compute reach the Preprocessor keyword of the "
+        "same meaning (element [i] for field i of cross-set models) and, inside the Preprocessor, the Scaler/Sanitizer keyword; in Scaler.fit/transform/"
+        "inverse each flag guards exactly its own fitted factor and every factor acts once; user weights reach Scaler.weights_ unchanged through "
+        "entry point -> Preprocessor -> iter_kwargs['weights'] -> per-item fit(**{k: v[i]}) for the right field and no other stage; mean_/std_ are "
+        "reductions over the sample dimensions; latitude weights are sqrt(cos(deg2rad(lat)).clip(0,1)) of a feature dimension.",
+        "note": "Necessary structural clauses only. Not decided: the invariances themselves, the 1.2e-7 clipping floor, latitude-name detection beyond the lookup.",
+        "technique": "interprocedural constructor-parameter flow, guard-to-operation pairing, def-use provenance through dict/loop forwarding",
     },
     "C09": {
         "text": "All covariance-type divisions of cpcca.py are classified (N-1 vs N) and must agree with the ddof of the standard deviation "
@@ -148,6 +168,17 @@ CLAIMS = {
         "conditioning. Identity branches are checked under C10.",
         "technique": "adjoint typing of linear maps from provenance (matrix attribute, conjugation parity, transposition), small arithmetic evaluation of the exponent, dominators",
     },
+    "C17": {
+        "text": "Every public data entry point (fit/transform/predict of 31 concrete models, each data parameter) validates the container type before any "
+        "other use (validate_input_type dominating the uses, or the preprocessor chain whose first stage begins with an isinstance guard that dominates "
+        "its uses); Scaler.transform's arithmetic with fitted arrays is dominated by a raising dimension check; 30+ role guards exist, raise under the "
+        "right condition and precede the use they protect: n_modes sanity (both SVD wrappers), init_rank_reduction range, rank, negative alpha, unknown "
+        "solver, item counts, transform dimensions / feature coordinates, empty dims, MultiIndex, name clash, 2-D dims, dim type, 'X or Y required', "
+        "cross-set sample count, concatenator and multi-set view validation.",
+        "note": "Necessary structural clauses only. Not decided: which exception type; that no numbers come out for every malformed call; rejections that "
+        "xarray itself performs (unknown dimension names / mode labels).",
+        "technique": "must-precede (dominator) analysis of guards, raise-condition role matching, call-site binding",
+    },
     "C18": {
         "text": "POP: ordering by the standard deviation of the coefficient series (second kernel output) along the sample dimension, descending, "
         "full re-ordering coverage and the 'sorted' typestate incl. reset at fit; fit and transform obtain coefficients from one routine with "
@@ -157,6 +188,15 @@ CLAIMS = {
         "note": "Small structural part only. Not decided: the eigen-relation A p = lambda p, conjugate pairing, the coefficient formula "
         "(Storch eq. 19), oscillator recovery - arithmetic on values.",
         "technique": "def-use provenance through apply_ufunc kernels (output index to container key), typestate, matmul-chain shape",
+    },
+    "C20": {
+        "text": "EOFBootstrapper.fit: no literal dimension designators, member EOFs built and fitted with the model's names; the generator is seeded "
+        "from the seed parameter, draws n_samples out of n_samples with replacement, the draw selects along the sample dimension of the model's "
+        "preprocessed data, the member is fitted on that resample and projects the original data; the alignment sign derives from member and model "
+        "scores along samples and multiplies both components and scores; members are labelled 1..n_bootstraps on all four results; the model's arrays "
+        "are stored as copies and the model's objects are not re-fitted.",
+        "note": "Necessary structural clauses only. Not decided: that members are EOFs of the resample numerically, non-negative correlation, variance bounds.",
+        "technique": "def-use provenance of the resampling pipeline (seed, draw, selection, fit, projection), ownership provenance",
     },
 }
 
